@@ -12,9 +12,9 @@ import (
 
 func init() {
 	core.Register(&core.Check{
-		ID:     "C44",
-		Rule:   "cases: every list of <= 3 paths over all strings of length <= L over {a,b,.} (L=3 quick, 4 thorough; enumerated completely for Normalize, and as (<=2 paths, <=1 path) pairs in both orders for Union/Intersect), PRNG lists of up to 6 dotted paths over segments {a,b,c,ab,a_b} in 2..4 masks, and paths built by descriptor walks over every corpus message type (valid by construction, then perturbed: continued through repeated/map/scalar fields, unknown names, empty segments, group names) for New/Append/IsValid; distinct = distinct (operation, path lists); non-trivial = at least one non-empty path",
-		Assume: []string{"coverage model: path p is covered by q iff p == q or p starts with q + '.' (harness/checks/c44.go, 10 lines)", "protoreflect descriptors of the corpus types"},
+		ID:         "C44",
+		Rule:       "cases: every list of <= 3 paths over all strings of length <= L over {a,b,.} (L=3 quick, 4 thorough; enumerated completely for Normalize, and as (<=2 paths, <=1 path) pairs in both orders for Union/Intersect), PRNG lists of up to 6 dotted paths over segments {a,b,c,ab,a_b} in 2..4 masks, and paths built by descriptor walks over every corpus message type (valid by construction, then perturbed: continued through repeated/map/scalar fields, unknown names, empty segments, group names) for New/Append/IsValid; distinct = distinct (operation, path lists); non-trivial = at least one non-empty path",
+		Assume:     []string{"coverage model: path p is covered by q iff p == q or p starts with q + '.' (harness/checks/c44.go, 10 lines)", "protoreflect descriptors of the corpus types"},
 		Exhaustive: func(tier string) bool { return false },
 		Batches: func(tier string) []core.Batch {
 			return stdBatches([]string{"base"}, 16)
